@@ -1,17 +1,16 @@
 SPECIFICATION Spec
 CONSTANTS
-  NStmts = 200
-  MaxDepth = 2
+  NStmts = 2400
+  MaxDepth = 3
   MaxCases = 4
-  MaxSeq = 3
-  MaxKeys = 2
-  Dump = FALSE
+  MaxSeq = 4
+  MaxKeys = 3
+  Dump = TRUE
 INVARIANT SelSound
 INVARIANT SkipSound
 INVARIANT BindComplete
 INVARIANT OneBody
 INVARIANT GuardOrder
 INVARIANT ExcFinal
-INVARIANT StmtWF
 INVARIANT Publish
 CHECK_DEADLOCK FALSE
